@@ -4306,6 +4306,16 @@ null_pc:
       frm.pop(__func__, __LINE__, pc);
    }
 
+   // indent_func_def_force_col1: the entry of a function that the end of the file closes
+   // (nothing follows its closing brace, not even a newline)
+   if (  in_func_def
+      && !frm.empty()
+      && Chunk::GetTail()->Is(CT_BRACE_CLOSE)
+      && Chunk::GetTail()->GetParentType() == CT_FUNC_DEF)
+   {
+      frm.pop(__func__, __LINE__, pc);
+   }
+
    for (size_t idx_temp = 1; idx_temp < frm.size(); idx_temp++)
    {
       LOG_FMT(LWARN, "%s(%d): size is %zu\n",
